@@ -313,16 +313,27 @@ class Harness:
     # scripted actions: grouped per (instant, rank), executed in script order.
     # rank BEFORE: ahead of every library timer due at that instant (the production order
     # for received datagrams); rank AFTER: behind them, still in the same loop iteration.
-    def at(self, t, fn, *args, rank=BEFORE):
+    # hops=k: the action runs k loop iterations later, still at the same virtual instant (it
+    # re-posts itself with call_soon k times) - application code that reacts "a little later".
+    def at(self, t, fn, *args, rank=BEFORE, hops=0):
         key = (t, rank)
         lst = self._actions.get(key)
         if lst is None:
             lst = self._actions[key] = []
             self.loop.call_at_ranked(t, rank, self._fire, key)
-        lst.append((fn, args))
+        lst.append((fn, args, hops))
 
     def _fire(self, key):
-        for fn, args in self._actions.pop(key, ()):
+        for fn, args, hops in self._actions.pop(key, ()):
+            if hops:
+                self.loop.call_soon(self._hop, fn, args, hops - 1)
+            else:
+                fn(*args)
+
+    def _hop(self, fn, args, hops):
+        if hops:
+            self.loop.call_soon(self._hop, fn, args, hops - 1)
+        else:
             fn(*args)
 
     def run(self, t_end):
